@@ -90,6 +90,8 @@ class System:
         self._g = None
         if not isinstance(source, Source):
             raise ValueError("First component of system must be a source!")
+        if rail != "" and rail == source._params["name"]:
+            raise ValueError("Component name and rail name cannot be the same!")
 
         self._g = rx.PyDAG(check_cycle=True, multigraph=False, attrs={})
         cidx = self._g.add_node(source)
